@@ -42,6 +42,9 @@ fn ref_lines(file: &[u8]) -> Vec<Vec<u8>> {
         }
     }
     if !cur.is_empty() {
+        if cur.last() == Some(&b'\r') {
+            cur.push(0); // sentinel: unterminated last line ending in CR -> CR membership is open
+        }
         out.push(cur);
     }
     out
@@ -62,7 +65,9 @@ fn explains(exp: &[(Vec<u8>, bool)], got: &[Vec<u8>]) -> bool {
     }
     let (line, valid) = &exp[0];
     if *valid {
-        !got.is_empty() && strip_cr(&got[0]) == strip_cr(line) && explains(&exp[1..], &got[1..])
+        // exact comparison; only a CR at the very end of an unterminated last line is left open (marked by 0x00 sentinel)
+        let same = if line.last() == Some(&0u8) { strip_cr(&got[..].first().map(|g| g.as_slice()).unwrap_or(&[])) == strip_cr(&line[..line.len() - 1]) } else { !got.is_empty() && got[0] == *line };
+        !got.is_empty() && same && explains(&exp[1..], &got[1..])
     } else {
         explains(&exp[1..], got) || (!got.is_empty() && explains(&exp[1..], &got[1..]))
     }
@@ -80,6 +85,7 @@ fn case_run(tables: &Tables, content: &[u8], cuts: &[usize]) -> (Vec<Failure>, b
     for f in &files {
         for l in ref_lines(f) {
             let valid = std::str::from_utf8(&l).is_ok();
+            let _ = &l;
             exp.push((l, valid));
         }
     }
@@ -193,6 +199,47 @@ pub fn run(ctx: &Ctx) -> i32 {
         }
     });
     col.layer("bytes x splits", done, complete, json!({"max_units": maxlen, "units": ["a", "b", "LF", "CR", "C3A9", "FF"], "max_files": 3}));
+    // buffer-boundary layer: special sequences placed around multiples of the reader's buffer size (8192)
+    let patterns: [&[u8]; 8] = [b"\r\n", b"a\r\nb\r\n", &[0xC3, 0xA9, b'\n'], &[0xF0, 0x9F, 0x98, 0x80, b'\n'], b"\n\n", b"a", b"a\r", b"ab\n"];
+    let mut nb = 0u64;
+    for m in [1usize, 2] {
+        for d in -5i64..=2 {
+            for (pi, pat) in patterns.iter().enumerate() {
+                for filler_len in [7usize, 100] {
+                    let target = (8192 * m) as i64 + d;
+                    let mut content: Vec<u8> = Vec::new();
+                    // filler lines of filler_len+1 bytes, last one adjusted so that the pattern starts exactly at `target`
+                    while (content.len() + filler_len + 1) as i64 <= target - 2 {
+                        content.extend(std::iter::repeat(b'x').take(filler_len));
+                        content.push(b'\n');
+                    }
+                    let rest = (target - content.len() as i64) as usize;
+                    if rest >= 1 {
+                        content.extend(std::iter::repeat(b'y').take(rest - 1));
+                        content.push(b'\n');
+                    }
+                    assert_eq!(content.len() as i64, target);
+                    content.extend_from_slice(pat);
+                    content.extend_from_slice(b"z\n");
+                    let cut_sets: Vec<Vec<usize>> = vec![vec![content.len()], vec![target as usize + 1, content.len() - target as usize - 1]];
+                    for cuts in cut_sets {
+                        let (fs, nt, ok) = case_run(&tables, &content, &cuts);
+                        col.eval(3);
+                        nb += 1;
+                        if nt {
+                            col.nontrivial(h64(&("boundary", m, d, pi, filler_len, cuts.len())));
+                        }
+                        col.outcome(ok);
+                        for f in fs {
+                            col.fail(f);
+                        }
+                    }
+                }
+            }
+        }
+    }
+    col.layer("buffer-boundary", nb, true, json!({"buffer": 8192, "multiples": [1, 2], "offsets": "-5..=2", "patterns": ["CRLF", "aCRLFbCRLF", "é LF", "😀 LF", "LF LF", "a (unterminated)", "a CR (unterminated)", "ab LF"]}));
+    col.sample(json!({"layer": "buffer-boundary", "content": "1023 filler lines of 8 bytes, then CR LF starting at byte 8191, then z LF"}));
     finish(
         ctx,
         &col,
